@@ -1,6 +1,7 @@
 package vuego
 
 import (
+	"bytes"
 	"context"
 	"io"
 	"strings"
@@ -265,6 +266,19 @@ func renderNodeWithContext(ctx VueContext, w io.Writer, node *html.Node, indent 
 			} else {
 				_, _ = w.Write([]byte(firstChild.Data))
 			}
+			_, _ = w.Write([]byte("</" + tagName + ">\n"))
+		} else if tagName == "pre" {
+			// preformatted: no indentation or line breaks of our own inside
+			_, _ = w.Write([]byte(spaces + "<" + tagName + renderAttrs(node.Attr) + ">"))
+			var cb bytes.Buffer
+			ctx.PushTag(tagName)
+			for c := firstChild; c != nil; c = c.NextSibling {
+				if err := renderNodeWithContext(ctx, &cb, c, 0); err != nil {
+					return err
+				}
+			}
+			ctx.PopTag()
+			_, _ = w.Write(bytes.TrimSuffix(cb.Bytes(), []byte("\n")))
 			_, _ = w.Write([]byte("</" + tagName + ">\n"))
 		} else {
 			_, _ = w.Write([]byte(spaces + "<" + tagName + renderAttrs(node.Attr) + ">\n"))
